@@ -73,7 +73,9 @@ TABLE.update({
                         (None, U), (True, U), (2.0, U)],
     "heading_slug_func": [(None, V), (slugfuncs.upper_dash, V), ("vlib.slugfuncs.upper_dash", V),
                           ("myst_parser.config.main._test_slug_func", V), (1, I), ([], I), ("nosuchmodule.f", I),
-                          ("vlib.slugfuncs.nosuchattr", I), ("nodots", I), ("", I), ({}, I), (True, I)],
+                          ("vlib.slugfuncs.nosuchattr", I), ("nodots", I), ("", I), ({}, I), (True, I),
+                          # importable, but what it names is not callable
+                          ("math.pi", I), ("os.sep", I), ("vlib.slugfuncs.NOT_A_FUNCTION", I), ("myst_parser.__version__", I)],
     "html_meta": [({}, V), ({"a": "b"}, V), ({"description lang=en": "d", "keywords": "k"}, V), (1, I), ("a", I), (None, I), ([], I),
                   ([["a", "b"]], I), ({"a": 1}, I), ({1: "a"}, I), ({"a": None}, I), ({"a": ["b"]}, I), (True, I)],
     "substitutions": [({}, V), ({"a": "b"}, V), ({"a": 1, "b": [1, 2], "c": {"d": None}}, V), (1, I), ("a", I), (None, I), ([], I),
